@@ -44,7 +44,8 @@ let lookup name : handle option =
     if name <> "" && (is_dir || through_file) then Lazy.force unopenable else None
 let exists name = match lookup name with Some _ -> true | None -> false
 
-let status_str = function StOk -> "ok" | StDiff -> "diff" | StNotExist -> "notexist" | StErr -> "err" | StPanic -> "panic"
+(* proc=1: the command ran as a process: "does not exist" is an error like any other (exit status 2) *)
+let status_str = function StOk -> "ok" | StDiff -> "diff" | StNotExist -> if !proc_mode then "err" else "notexist" | StErr -> "err" | StPanic -> "panic"
 
 let offsets layout =
   let k = List.length layout in
@@ -162,7 +163,7 @@ let () =
            let (h1, _) = h_update_many flocq_fops h0 pts Z0 inow in
            set_file dname (Some (sync h1)); seen) in
     let run_copy () =
-      if globbed && jobs = [] then obs "clicopy %s" (if textout kv = ToBad then "err" else "notexist")
+      if globbed && jobs = [] then obs "clicopy %s" (if textout kv = ToBad then "err" else status_str StNotExist)
       else
         run_world "clicopy" kv (List.concat_map (fun (s, d) -> [s; d]) jobs)
           (fun long w id ns dflt -> run_copies flocq_fops long o w (List.map (fun (s, d) -> (id s, id d)) jobs) ns dflt)
@@ -236,7 +237,7 @@ let () =
     let items = parse_items kv in
     let o = copy_opts kv in
     if get kv "items" "-" = "BADPATTERN" then obs "clisumcopy err"
-    else if items = [] then obs "clisumcopy %s" (if textout kv = ToBad then "err" else "notexist")
+    else if items = [] then obs "clisumcopy %s" (if textout kv = ToBad then "err" else status_str StNotExist)
     else
       let dest_of item = join (join (get kv "destbase" "") (item_dir item)) (get kv "dest" "") in
       run_world "clisumcopy" kv (List.concat_map (fun (item, files) -> dest_of item :: files) items)
